@@ -55,3 +55,41 @@ def sql_text(ex):
             return str(ex).replace("\n", " ")
         except Exception as e:
             return f"<unprintable {e}>"
+
+
+def failed_compilations(env, stats=None):
+    """History step for SQL checks: ask the case's SQL engine to compile relations it has to refuse - an unprocessed
+    materialization below a sub-query (documented EngineError: 'use a Processor first'), and a relation whose predicate
+    calls a function that raises while it is being converted.  The exceptions are expected and ignored; what matters
+    is that the same engine object compiles everything that follows as if nothing had happened."""
+    from lsst.daf.relation import ColumnExpression, SortTerm
+
+    from .tags import sorted_tags
+
+    done = 0
+    for leafrel in env.leafrels:
+        if leafrel.engine is not env.sql or not leafrel.columns:
+            continue
+        t = sorted_tags(leafrel.columns)[0]
+        ref = ColumnExpression.reference(t)
+        attempts = []
+        try:
+            mat = leafrel.with_rows_satisfying(ref.ge(ColumnExpression.literal(-99))).materialized(name=f"unprocessed_{done}")
+            attempts.append(mat[0:2].sorted([SortTerm(ref, False)]).with_rows_satisfying(ref.le(ColumnExpression.literal(99))))
+            attempts.append(mat.sorted([SortTerm(ref)])[1:3].without_duplicates()[0:1])
+        except Exception:
+            pass
+        try:
+            boom = ColumnExpression.predicate_function("vf_boom", ref)
+            attempts.append(leafrel.sorted([SortTerm(ref)])[0:3].with_rows_satisfying(boom).sorted([SortTerm(ref, False)]))
+        except Exception:
+            pass
+        for rel in attempts:
+            try:
+                env.sql.to_executable(rel)
+            except Exception:
+                done += 1
+        break
+    if stats is not None and done:
+        stats.c["history:failed-compilations"] += done
+    return done
